@@ -244,6 +244,16 @@ impl ParseState {
                 }
                 Item::ArrayOfTables(ref mut array) => {
                     debug_assert!(!array.is_empty());
+                    // Dotted keys may not extend an array of tables (a trailing key is
+                    // rejected by the caller, an intermediate one has to be rejected here)
+                    if dotted {
+                        if let Some(next) = path.get(i + 1) {
+                            return Err(CustomError::DuplicateKey {
+                                key: next.get().into(),
+                                table: None,
+                            });
+                        }
+                    }
 
                     let index = array.len() - 1;
                     let last_child = array.get_mut(index).unwrap();
